@@ -225,3 +225,51 @@ def validate_traces(module, cfg, traces, *, scratch, timeout=1800, chunk=None, e
             dist += r.distinct
             wall += r.wall
     return results, dict(generated=gen, distinct=dist, wall=round(wall, 2), jobs=len(chunks))
+
+
+def validate_records(module, cfg, recs, *, scratch, timeout=1800, parallel=6, env=None, heap="4g"):
+    """Batch evaluation of independent records (pure-function conformance).
+
+    The records spec (see spec/RecKit.tla) steps through IOEnv.TRACE_FILE (a
+    JSON array of records with an "id"), evaluates every tagged clause of the
+    specification on each record and writes to IOEnv.OUT_FILE a JSON array of
+    {id, failed:[tags]}.  Returns (list aligned with recs, stats)."""
+    from concurrent.futures import ThreadPoolExecutor
+    if not recs:
+        return [], dict(generated=0, distinct=0, wall=0.0, jobs=0)
+    n = max(1, min(parallel, (len(recs) + 199) // 200))
+    size = (len(recs) + n - 1) // n
+    chunks = [recs[i:i + size] for i in range(0, len(recs), size)]
+
+    def one(ix_chunk):
+        ix, ch = ix_chunk
+        tf = os.path.join(scratch, "recs-%s-%d-%d.json" % (module, ix, time.time_ns() % 10**9))
+        of = tf.replace("recs-", "rout-")
+        with open(tf, "w") as f:
+            json.dump(ch, f, separators=(",", ":"))
+        e = dict(TRACE_FILE=tf, OUT_FILE=of)
+        if env:
+            e.update(env)
+        r = run(module, cfg, workers=1, env=e, timeout=timeout, scratch=scratch, heap=heap)
+        if not r.ok:
+            raise MachineryError("records spec %s reported %s:\n%s" % (module, r.violation, r.out[-3000:]))
+        if not os.path.exists(of):
+            raise MachineryError("records spec %s wrote no result file:\n%s" % (module, r.out[-3000:]))
+        with open(of) as f:
+            out = json.load(f)
+        os.unlink(tf)
+        os.unlink(of)
+        if len(out) != len(ch):
+            raise MachineryError("records spec %s: %d results for %d records" % (module, len(out), len(ch)))
+        return out, r
+
+    results = []
+    gen = dist = 0
+    wall = 0.0
+    with ThreadPoolExecutor(max_workers=max(1, parallel)) as ex:
+        for out, r in ex.map(one, list(enumerate(chunks))):
+            results.extend(out)
+            gen += r.generated
+            dist += r.distinct
+            wall += r.wall
+    return results, dict(generated=gen, distinct=dist, wall=round(wall, 2), jobs=len(chunks))
